@@ -140,6 +140,10 @@ def gate_on_path(repo, canon, pc, plogic, f, fr, p, i, key, T):
                 return 'subset'
         if l.pol and l.atom.startswith('truthy(all(') and 'is_task_finished' in l.atom and any(s in l.atom for s in srcs):
             return 'all()'
+    # (b1) the quantified form every counting / all() / filtered-list idiom reduces to
+    for s in srcs:
+        if Lit('forall $1 in %s: truthy(Cluster.is_task_finished($1))' % s, True) in must:
+            return 'all()'
     # (b2) "the list of unfinished predecessors is empty"
     for s in srcs:
         unf = 'seq[elem(%s) for %s if (not Cluster.is_task_finished(elem(%s)))]' % (s, s, s)
